@@ -142,6 +142,8 @@ def conclude(pid, spec, results, tier, seed, wall, kani=(), extra_viol=()):
         all_obl += obl
         for k, m in (r.meta or {}).get('functions', {}).items():
             fn_under_contract[k] = m
+        for k in (r.meta or {}).get('skipped_missing', []):
+            assumed.add('item no longer in the source, skipped (no users can exist): %s' % k)
         for k, h in (r.meta or {}).get('pinned', {}).items():
             assumed.add('trusted unverified body pinned by hash %s: %s' % (h, k))
         # group diags per function to apply the trait.* redundancy rule
